@@ -55,7 +55,7 @@ class Paraxial:
         wavelength = self.optic.primary_wavelength
         y, u = self._trace_generic(1.0, 0.0, z_start, wavelength)
         f2 = -y[0] / u[-1]
-        return np.abs(f2[0])
+        return f2[0]
 
     def F1(self):
         """Calculate the front focal point location
@@ -155,7 +155,7 @@ class Paraxial:
             return ap_value
 
         elif ap_type == 'imageFNO':
-            return self.f2() / ap_value
+            return np.abs(self.f2()) / ap_value
 
         elif ap_type == 'objectNA':
             obj_z = self.optic.object_surface.geometry.cs.z
@@ -214,7 +214,7 @@ class Paraxial:
         if ap_type == 'imageFNO':
             return self.optic.aperture.value
         else:
-            return self.f2() / self.EPD()
+            return np.abs(self.f2()) / self.EPD()
 
     def magnification(self):
         '''Calculate the magnification
